@@ -389,6 +389,14 @@ class SplitM:
         self.segs = list(segs)
 
 
+class SegStr:
+    """A string derived from an environment value, given by its ':'-separated segments."""
+    immutable = True
+
+    def __init__(self, segs):
+        self.segs = list(segs)
+
+
 class Env:
     """Symbolic process environment + string table, shared by one job (declares solver symbols)."""
 
@@ -474,24 +482,49 @@ def make_env_models(env):
 
     def m_str_as_ref(ex, st, args, callee, ty):
         v = _obj(ex, st, args[0])
-        if isinstance(v, Str):
+        if isinstance(v, (Str, SegStr)):
             return v
         raise Unsupported("AsRef<str> on %r" % (v,))
+
+    def env_segments(ex, st, s):
+        if isinstance(s, SegStr):
+            return list(s.segs)
+        if not (isinstance(s, Str) and s.sym is not None and not s.sym.concrete and s.sym.v.startswith("val_")):
+            raise Unsupported("segments of %r" % (s,))
+        name = s.sym.v[4:]
+        n = 1
+        while n < env.max_segs and not ex.decide(st, i_eq(I("nseg_" + name), I(n))):
+            n += 1
+        st.meta.setdefault("split", {})[name] = n
+        return [Str(sym=I("seg_%s_%d" % (name, j))) for j in range(n)]
+
+    def seg_empty(seg):
+        if seg.s is not None:
+            return B(len(seg.s) == 0)
+        return B("segempty_" + seg.sym.v[4:])
 
     def m_split(ex, st, args, callee, ty):
         s = _obj(ex, st, args[0])
         sep = args[1]
         if not (isinstance(sep, BV) and sep.concrete and sep.v == ord(":")):
             raise Unsupported("str::split with separator %r" % (sep,))
-        if not (isinstance(s, Str) and s.sym is not None and not s.sym.concrete and s.sym.v.startswith("val_")):
-            raise Unsupported("str::split on %r" % (s,))
-        name = s.sym.v[4:]
-        n = 1
-        while n < env.max_segs and not ex.decide(st, i_eq(I("nseg_" + name), I(n))):
-            n += 1
-        segs = [Str(sym=I("seg_%s_%d" % (name, j))) for j in range(n)]
-        st.meta.setdefault("split", {})[name] = n
-        return SplitM(segs)
+        return SplitM(env_segments(ex, st, s))
+
+    def m_trim_matches(ex, st, args, callee, ty):
+        s = _obj(ex, st, args[0])
+        sep = args[1]
+        if not (isinstance(sep, BV) and sep.concrete and sep.v == ord(":")):
+            raise Unsupported("str::trim_matches with pattern %r" % (sep,))
+        segs = env_segments(ex, st, s)
+        which = callee.split("::")[-2] if callee.endswith(">") else callee.split("::")[-1]
+        front = "trim_matches" in callee or "trim_start_matches" in callee
+        back = "trim_matches" in callee or "trim_end_matches" in callee
+        # an empty leading/trailing segment means the string starts/ends with ':'
+        while front and len(segs) > 1 and ex.decide(st, seg_empty(segs[0])):
+            segs.pop(0)
+        while back and len(segs) > 1 and ex.decide(st, seg_empty(segs[-1])):
+            segs.pop()
+        return SegStr(segs)
 
     def m_split_next(ex, st, args, callee, ty):
         it = _obj(ex, st, args[0])
@@ -503,6 +536,8 @@ def make_env_models(env):
         s = _obj(ex, st, args[0])
         if isinstance(s, Str) and s.s is not None:
             return B(len(s.s) == 0)
+        if isinstance(s, SegStr):
+            return seg_empty(s.segs[0]) if len(s.segs) == 1 else B(False)
         t = s.sym.v
         if t.startswith("seg_"):
             return B("segempty_" + t[4:])
@@ -558,6 +593,7 @@ def make_env_models(env):
         (rx(r"^(?:std::boxed::)?box_assume_init_into_vec_unsafe::<PathBuf, \d+>$"), m_into_vec),
         (rx(r"^<.* as AsRef<str>>::as_ref$"), m_str_as_ref),
         (rx(r"^core::str::<impl str>::split::<char>$"), m_split),
+        (rx(r"^(?:core::)?str::<impl str>::trim(_start|_end)?_matches::<char>$"), m_trim_matches),
         (rx(r"^<(?:std::str::)?Split<'_, char> as IntoIterator>::into_iter$"), m_identity),
         (rx(r"^<(?:std::str::)?Split<'_, char> as Iterator>::next$"), m_split_next),
         (rx(r"^core::str::<impl str>::is_empty$"), m_str_is_empty),
@@ -854,4 +890,228 @@ def make_text_models():
         (rx(r"^<String as PartialEq<&str>>::eq$"), m_string_eq),
         (rx(r"^<String as PartialEq>::eq$"), m_string_eq),
         (rx(r"^<String as Deref>::deref$"), m_deref),
+    ]
+
+
+# ================================================================================================
+# Option / Result combinators and lazy iterator adapters (closures run as real MIR via CallBack)
+# ================================================================================================
+from .engine import CallBack, Identity  # noqa: E402
+
+
+class WrapCont:
+    """wraps the callback's result into an enum variant: Some(x) / Ok(x) / Err(x)"""
+
+    def __init__(self, ty, variant, vname):
+        self.ty, self.variant, self.vname = ty, variant, vname
+
+    def resume(self, ex, st, v):
+        return Adt(self.ty, self.variant, self.vname, [v])
+
+
+class FilterCont:
+    def __init__(self, opt):
+        self.opt = opt
+
+    def resume(self, ex, st, v):
+        return self.opt if ex.decide(st, v) else opt_none(ex)
+
+
+class LazyIter:
+    """src: list of pending items; stages: [('map'|'filter', fnvalue)]"""
+
+    def __init__(self, items, stages):
+        self.items, self.stages = list(items), list(stages)
+
+
+class DrainCont:
+    """Pulls items through the stages one callback at a time; `finish(list)` builds the result."""
+
+    def __init__(self, lazy, finish, limit=None):
+        self.pending = list(lazy.items)
+        self.stages = lazy.stages
+        self.out = []
+        self.finish = finish
+        self.limit = limit
+        self.cur = None
+        self.stage_i = 0
+
+    def start(self, ex, st):
+        return self._advance(ex, st)
+
+    def _advance(self, ex, st):
+        while True:
+            if self.cur is None:
+                if not self.pending or (self.limit is not None and len(self.out) >= self.limit):
+                    return self.finish(ex, st, self.out, self.pending)
+                self.cur = self.pending.pop(0)
+                self.stage_i = 0
+            if self.stage_i >= len(self.stages):
+                self.out.append(self.cur)
+                self.cur = None
+                continue
+            kind, f = self.stages[self.stage_i]
+            arg = self.cur if kind == "map" else BoxRef(self.cur)
+            return CallBack(f, [arg], self)
+
+    def resume(self, ex, st, v):
+        kind, f = self.stages[self.stage_i]
+        if kind == "map":
+            self.cur = v
+            self.stage_i += 1
+        else:
+            if ex.decide(st, v):
+                self.stage_i += 1
+            else:
+                self.cur = None
+        return self._advance(ex, st)
+
+
+def _items_of(ex, st, it):
+    it = _obj(ex, st, it)
+    if isinstance(it, LazyIter):
+        return it
+    if isinstance(it, SplitM):
+        return LazyIter(it.segs, [])
+    if isinstance(it, ComponentsM):
+        return LazyIter(it.comps, [])
+    if isinstance(it, VecM):
+        return LazyIter(it.items, [])
+    raise Unsupported("iterator adapter over %r" % (it,))
+
+
+def make_combinators():
+    def is_variant(ty, idx):
+        def f(ex, st, args, callee, t):
+            v = _obj(ex, st, args[0])
+            return B(v.variant == idx)
+        return f
+
+    def m_result_ok(ex, st, args, callee, ty):
+        r = args[0]
+        return opt_some(ex, r.fields[0]) if r.variant == 0 else opt_none(ex)
+
+    def m_result_err(ex, st, args, callee, ty):
+        r = args[0]
+        return opt_some(ex, r.fields[0]) if r.variant == 1 else opt_none(ex)
+
+    def m_opt_and_then(ex, st, args, callee, ty):
+        o = args[0]
+        if o.variant == 0:
+            return opt_none(ex)
+        return CallBack(args[1], [o.fields[0]], Identity())
+
+    def m_opt_map(ex, st, args, callee, ty):
+        o = args[0]
+        if o.variant == 0:
+            return opt_none(ex)
+        return CallBack(args[1], [o.fields[0]], WrapCont("Option", 1, "Some"))
+
+    def m_opt_filter(ex, st, args, callee, ty):
+        o = args[0]
+        if o.variant == 0:
+            return opt_none(ex)
+        return CallBack(args[1], [BoxRef(o.fields[0])], FilterCont(o))
+
+    def m_unwrap_or(ex, st, args, callee, ty):
+        o = args[0]
+        if (o.ty == "Option" and o.variant == 1) or (o.ty == "Result" and o.variant == 0):
+            return o.fields[0]
+        return args[1]
+
+    def m_unwrap_or_else(ex, st, args, callee, ty):
+        o = args[0]
+        if o.ty == "Option":
+            if o.variant == 1:
+                return o.fields[0]
+            return CallBack(args[1], [], Identity())
+        if o.variant == 0:
+            return o.fields[0]
+        return CallBack(args[1], [o.fields[0]], Identity())
+
+    def m_ok_or(ex, st, args, callee, ty):
+        o = args[0]
+        if o.variant == 1:
+            return Adt("Result", 0, "Ok", [o.fields[0]])
+        return Adt("Result", 1, "Err", [args[1]])
+
+    def m_res_map(ex, st, args, callee, ty):
+        r = args[0]
+        if r.variant == 1:
+            return r
+        return CallBack(args[1], [r.fields[0]], WrapCont("Result", 0, "Ok"))
+
+    def m_res_map_err(ex, st, args, callee, ty):
+        r = args[0]
+        if r.variant == 0:
+            return r
+        return CallBack(args[1], [r.fields[0]], WrapCont("Result", 1, "Err"))
+
+    def m_res_and_then(ex, st, args, callee, ty):
+        r = args[0]
+        if r.variant == 1:
+            return r
+        return CallBack(args[1], [r.fields[0]], Identity())
+
+    def m_unwrap(ex, st, args, callee, ty):
+        o = args[0]
+        if (o.ty == "Option" and o.variant == 0) or (o.ty == "Result" and o.variant == 1):
+            raise Panic("called `unwrap()` on a `None`/`Err` value")
+        return o.fields[0]
+
+    def m_iter_map(ex, st, args, callee, ty):
+        l = _items_of(ex, st, args[0])
+        return LazyIter(l.items, l.stages + [("map", args[1])])
+
+    def m_iter_filter(ex, st, args, callee, ty):
+        l = _items_of(ex, st, args[0])
+        return LazyIter(l.items, l.stages + [("filter", args[1])])
+
+    def collect_into(kind):
+        def f(ex, st, args, callee, ty):
+            l = _items_of(ex, st, args[0])
+
+            def fin(ex2, st2, out, rest, kind=kind):
+                if kind == "vec":
+                    return VecM(out)
+                if kind == "count":
+                    return BV(64, False, len(out))
+                raise Unsupported("collect into " + kind)
+            return DrainCont(l, fin).start(ex, st)
+        return f
+
+    def m_lazy_next(ex, st, args, callee, ty):
+        l = _obj(ex, st, args[0])
+
+        def fin(ex2, st2, out, rest):
+            l.items = rest
+            return opt_some(ex2, out[0]) if out else opt_none(ex2)
+        return DrainCont(l, fin, limit=1).start(ex, st)
+
+    def m_into_iter_identity(ex, st, args, callee, ty):
+        return args[0]
+
+    return [
+        (rx(r"^Result::<.*>::ok$"), m_result_ok),
+        (rx(r"^Result::<.*>::err$"), m_result_err),
+        (rx(r"^Result::<.*>::is_ok$"), is_variant("Result", 0)),
+        (rx(r"^Result::<.*>::is_err$"), is_variant("Result", 1)),
+        (rx(r"^Option::<.*>::is_some$"), is_variant("Option", 1)),
+        (rx(r"^Option::<.*>::is_none$"), is_variant("Option", 0)),
+        (rx(r"^Option::<.*>::and_then::<.*>$"), m_opt_and_then),
+        (rx(r"^Option::<.*>::map::<.*>$"), m_opt_map),
+        (rx(r"^Option::<.*>::filter::<.*>$"), m_opt_filter),
+        (rx(r"^(Option|Result)::<.*>::unwrap_or$"), m_unwrap_or),
+        (rx(r"^(Option|Result)::<.*>::unwrap_or_else::<.*>$"), m_unwrap_or_else),
+        (rx(r"^Option::<.*>::ok_or::<.*>$"), m_ok_or),
+        (rx(r"^Result::<.*>::map::<.*>$"), m_res_map),
+        (rx(r"^Result::<.*>::map_err::<.*>$"), m_res_map_err),
+        (rx(r"^Result::<.*>::and_then::<.*>$"), m_res_and_then),
+        (rx(r"^(Option|Result)::<.*>::(unwrap|expect)$"), m_unwrap),
+        (rx(r"^<.* as Iterator>::map::<.*>$"), m_iter_map),
+        (rx(r"^<.* as Iterator>::filter::<.*>$"), m_iter_filter),
+        (rx(r"^<(Map|Filter)<.*> as Iterator>::collect::<Vec<.*>>$"), collect_into("vec")),
+        (rx(r"^<(Map|Filter)<.*> as Iterator>::count$"), collect_into("count")),
+        (rx(r"^<(Map|Filter)<.*> as Iterator>::next$"), m_lazy_next),
+        (rx(r"^<(Map|Filter)<.*> as IntoIterator>::into_iter$"), m_into_iter_identity),
     ]
